@@ -19,6 +19,7 @@ transferring spent fuel assemblies from the core to the SFP.
 """
 import itertools
 
+from armi.reactor import grids
 from armi.reactor.excoreStructure import ExcoreStructure
 
 
@@ -52,7 +53,7 @@ class SpentFuelPool(ExcoreStructure):
                 f"An assembly cannot be added to {self} using a spatial locator from another grid."
             )
 
-        if self.numColumns is None:
+        if self.numColumns is None and self.spatialGrid is not None:
             self._updateNumberOfColumns()
 
         # If the assembly added has a negative ID, that is a placeholder, fix it.
@@ -67,6 +68,10 @@ class SpentFuelPool(ExcoreStructure):
         )
         if locProvided:
             loc = loc or assem.spatialLocator
+        elif self.spatialGrid is None:
+            # A pool built without a grid design (e.g. the default SFP) has no positions to fill,
+            # so the assembly is held off-grid, like any object that is not on a grid.
+            loc = grids.CoordinateLocation(0.0, 0.0, 0.0, None)
         else:
             loc = self._getNextLocation()
 
